@@ -140,6 +140,22 @@ def servedOK (requireAuth exposePprof : Bool) (svc : AuthSvc) (req : Req) : Bool
   | none => false
   | some want => (validAccounts svc req.auth).any (fun acc => mayAllow acc (apiNodeOf req.path) want)
 
+/-- A route pattern covers a URL path (a pattern ending in '/' covers everything below it). -/
+def patternCovers (pat p : Path) : Bool :=
+  if pat.getLast? = some '/' then pat.isPrefixOf p else pat == p
+
+/-- The handler registered for method `hm` and pattern `hp` RAN for the request: the property must hold of THAT
+handler — valid credentials of an account holding the privilege `hm` (not whatever else the request names as its
+method) requires on the resource of the request, and `hp` is a route of that resource (of the URL path, or of the
+path a `/kapacitor/v1preview` URL stands for). Nothing of the request but its credentials, its path and the handler
+that ran enters: no header can make it true. -/
+def ranOK (requireAuth exposePprof : Bool) (svc : AuthSvc) (req : Req) (hm : List Char) (hp : Path) : Bool :=
+  !requireAuth ||
+  (servedOK requireAuth exposePprof svc { req with method := hm } &&
+   (patternCovers hp req.path ||
+    ("/kapacitor/v1preview".toList.isPrefixOf req.path &&
+     patternCovers hp ("/kapacitor/v1".toList ++ req.path.drop 20))))
+
 /-- The database resource of a database name: one element below "/database"; the statement only needs that
 different names give different resources, so the spec takes the mapping as a parameter.
 `req.db` is the TARGET database — the one the points go to. Nothing else of the query enters: not `rp`, not
